@@ -312,3 +312,26 @@ package dataflow
 //@   requires begin != nil && end != nil
 //@   ensures same_function: result.Cond.Satisfiable ==> begin.Parent() == end.Parent()
 //@   ensures must_condition: forall k int :: 0 <= k && k < len(result.Cond.Conditions) ==> onEveryPath(begin, end, result.Cond.Conditions[k].Value, result.Cond.Conditions[k].IsPositive)
+
+// ---------------------------------------------------------------------------
+// C01 / C08: marking a value also marks the object it was derived from. For a
+// value v that was not yet marked (HasMarkAt answered false), markValue recurses
+// into the operand the value views or was loaded from, for EVERY such kind of
+// value: slices, interface boxes, element / field addresses and projections, loads
+// through a pointer (UnOp *) -- whatever the loaded type, a struct copy still shares
+// its pointer, map and slice fields with the original --, map iterators, and tuple
+// extractions of pointer-like components.
+//@ macro fresh_mark() = !retof(FlowInformation.HasMarkAt, state.flowInfo, i, v, path, mark)
+//@ func IntraAnalysisState.markValue
+//@   property C01 C08
+//@   requires state != nil
+//@   ensures slice: istype(v, *ssa.Slice) && fresh_mark() ==> called(markValue, state, i, v.(*ssa.Slice).X, path, mark)
+//@   ensures make_interface: istype(v, *ssa.MakeInterface) && fresh_mark() ==> called(markValue, state, i, v.(*ssa.MakeInterface).X, path, mark)
+//@   ensures index_addr: istype(v, *ssa.IndexAddr) && fresh_mark() ==> called(markValue, state, i, v.(*ssa.IndexAddr).X, _, mark)
+//@   ensures index: istype(v, *ssa.Index) && fresh_mark() ==> called(markValue, state, i, v.(*ssa.Index).X, _, mark)
+//@   ensures field: istype(v, *ssa.Field) && fresh_mark() ==> called(markValue, state, i, v.(*ssa.Field).X, _, mark)
+//@   ensures field_addr: istype(v, *ssa.FieldAddr) && fresh_mark() ==> called(markValue, state, i, v.(*ssa.FieldAddr).X, _, mark)
+//@   ensures load: istype(v, *ssa.UnOp) && v.(*ssa.UnOp).Op == token.MUL && fresh_mark() ==> called(markValue, state, i, v.(*ssa.UnOp).X, path, mark)
+//@   ensures next: istype(v, *ssa.Next) && !v.(*ssa.Next).IsString && fresh_mark() ==> called(markValue, state, i, v.(*ssa.Next).Iter, _, mark)
+//@   ensures range: istype(v, *ssa.Range) && fresh_mark() ==> called(markValue, state, i, v.(*ssa.Range).X, path, mark)
+//@   ensures extract: istype(v, *ssa.Extract) && lang.IsNillableType(v.(*ssa.Extract).Type()) && fresh_mark() ==> called(markValue, state, i, v.(*ssa.Extract).Tuple, path, mark)
